@@ -324,7 +324,7 @@ struct LoopTag {
     SizeT8 GroupLength{0};
 
     SizeT8 Options{0};
-    SizeT8 Level{0};
+    SizeT  Level{0};
 };
 
 // IfTagCase --------------------------------------
